@@ -475,9 +475,18 @@ func (p *Prog) l2Obligation(cl *copyLoop, base Ob, props []string, ea *ErrAtoms)
 		case !needWritePos && !isWritePos && !isReadPos:
 			bad = append(bad, p.at(it)+": the item's position is neither the position the record was read at nor the one it was written at")
 		}
-		// the previous-timestamp argument is not judged: for message times that never decrease
-		// (the only case the properties constrain index timestamps in) max(time, prev) is the
-		// message time whatever prev is.
+		// the previous-timestamp argument: for message times that never decrease max(time, prev) is the
+		// message time whatever prev is, so loops that only *write* an index are not judged.  Loops that
+		// *compare* their items with a stored index (Check, Recover: C07 quantifies over arbitrary
+		// messages) must carry the previous item's Timestamp exactly as the appending writer does.
+		if p.sliceReachesCompare(p.itemAppendedTo(it, cl), fn) {
+			prevPhi, ok := canon(args[3]).(*ssa.Phi)
+			if !ok || prevPhi.Block() != cl.header {
+				bad = append(bad, p.at(it)+": the previous index timestamp passed to NewItem is not carried around the loop, but the items are compared with the stored index")
+			} else if !p.phiFedByTimestamp(prevPhi, it, cl) {
+				bad = append(bad, p.at(it)+": the loop-carried index timestamp is not the Timestamp of the item just created, but the items are compared with the index the appending writer built that way (for times that step backwards twice the derived index differs: Recover is no longer a no-op, Check fails)")
+			}
+		}
 		// the item is appended to a loop-carried slice that reaches index.Write / slices.Equal after the loop
 		slicePhi := p.itemAppendedTo(it, cl)
 		if slicePhi == nil {
@@ -628,6 +637,25 @@ func (p *Prog) sliceReachesIndexSink(phi *ssa.Phi, fn *ssa.Function) bool {
 		}
 	}
 	// returned to the caller (ReindexReader returns the items it wrote)
+	return false
+}
+
+// sliceReachesCompare: the items slice is compared with a stored index (slices.Equal).
+func (p *Prog) sliceReachesCompare(phi *ssa.Phi, fn *ssa.Function) bool {
+	if phi == nil {
+		return false
+	}
+	for _, b := range fn.Blocks {
+		for _, ins := range b.Instrs {
+			if c, ok := ins.(*ssa.Call); ok && strings.HasPrefix(calleeName(c.Common()), "slices.Equal") {
+				for _, a := range c.Call.Args {
+					if a == phi {
+						return true
+					}
+				}
+			}
+		}
+	}
 	return false
 }
 
